@@ -101,6 +101,17 @@ pub fn sub_mark_n(ordinal: u64, s: &str) -> bool {
     true
 }
 
+/// ordinal of the sub-step in flight (u64::MAX: none / no shared marker)
+pub fn current_sub_ordinal() -> u64 {
+    let p = SUB_PTR.load(Ordering::Relaxed);
+    if p.is_null() {
+        return u64::MAX;
+    }
+    let mut a = [0u8; 8];
+    unsafe { std::ptr::copy_nonoverlapping(p.add(SUB_LEN - 8), a.as_mut_ptr(), 8) };
+    u64::from_le_bytes(a)
+}
+
 fn sub_clear_ordinal() {
     let p = SUB_PTR.load(Ordering::Relaxed);
     if !p.is_null() {
